@@ -122,6 +122,40 @@ def exportedResolve (order dummyFor builtins : List String) (t : SpaceNames) (n 
     (if t.isMember n then .member else .unbound)
   else (if builtins.contains n then .builtin else .unbound)
 
+/-! ### static access: parameters have values in ItemSpaces only
+
+`P.foo()` (no item) and `P[1].Q.foo()` (the inner level not called) evaluate formulas of a parametrised
+space where some of its visible parameters have NO value.  modelx: the name is then not in the namespace
+and falls through to the built-ins.  Exported: the name was rewritten to `self.<name>` (it is a parameter
+somewhere), the instance has no such attribute; since fix 28e12dc the class body holds `k = k` - a class
+attribute bound to the built-in - for every name of `fallbackFor` (`Generated.exportStaticFallbackFor`)
+that is a built-in and in none of the containers `excl` (`Generated.exportStaticFallbackUnless`). -/
+
+/-- a member that has a value where the formula runs; `bound`: the parameters that an ItemSpace on the
+access path binds -/
+def SpaceNames.hasValue (t : SpaceNames) (bound : List String) (n : String) : Bool :=
+  t.cells.contains n || t.refs.contains n || t.spaces.contains n ||
+    (t.params.contains n && bound.contains n)
+
+/-- modelx: namespace (cells, references incl. the arguments of the ItemSpaces passed through, child
+spaces), then `__builtins__` -/
+def mxResolveAt (builtins : List String) (t : SpaceNames) (bound : List String) (n : String) : Target :=
+  if t.hasValue bound n then .member else if builtins.contains n then .builtin else .unbound
+
+/-- the class-level line `k = k` of `_get_class_def` -/
+def classFallback (fallbackFor excl builtins : List String) (t : SpaceNames) (n : String) : Bool :=
+  (fallbackFor.flatMap (container t)).contains n && builtins.contains n &&
+    !(excl.flatMap (container t)).contains n
+
+/-- the exported method: `self.n` (instance attribute, else class attribute) if rewritten, else a
+module global = built-in -/
+def exportedResolveAt (order dummyFor fallbackFor excl builtins : List String) (t : SpaceNames)
+    (bound : List String) (n : String) : Target :=
+  if shouldReplace order dummyFor builtins t .global n then
+    (if t.hasValue bound n then .member
+     else if classFallback fallbackFor excl builtins t n then .builtin else .unbound)
+  else (if builtins.contains n then .builtin else .unbound)
+
 /-- the trigger of known finding C15-builtin-named-space-or-param -/
 def BuiltinNamedSpaceOrParam (dummyFor builtins : List String) (t : SpaceNames) (n : String) : Prop :=
   builtins.contains n = true ∧ (topNames dummyFor t).contains n = false ∧ t.isMember n = true
